@@ -457,7 +457,7 @@ theorem iter_accept (whole : List Char) : ∀ (k : Nat) (j : List Char), j.lengt
         exact hes
 
 /-- **C05, first clause.**  Every text that follows the documented ledger syntax — in the dialect `Dialect.accepted`, which
-differs from the document by four decidable conditions on single lexemes, each shown necessary in `DocAcceptFindings` —
+differs from the document by three decidable conditions on single lexemes, each shown necessary in `DocAcceptFindings` —
 is accepted by the parser.  The last line of the text may be ended by the end of the file instead of a line end
 (`new-line ::= "\r"? "\n" | <EOF>` is part of the grammar). -/
 theorem DocAccept_ledger (t : List Char) (h : DocLedger 𝔸 t) : ∃ es, Parse.parseEntries t = .ok es := by
